@@ -135,7 +135,9 @@ func (f *Frame) execInstr(ins ssa.Instruction, st *State, b *ssa.BasicBlock, idx
 		f.atPoint(f.callOrd[ins]+" before", st, b, idx)
 		res := f.execCall(ins, ins.Common(), st)
 		f.set(ins, res)
+		f.lastCallResult = &res
 		f.atPoint(f.callOrd[ins], st, b, idx+1)
+		f.lastCallResult = nil
 	case *ssa.Defer:
 		st.defers = append(st.defers, deferEntry{guard: True, call: ins, frame: f})
 	case *ssa.Go:
